@@ -46,6 +46,7 @@ from ..ast.fpyast import (
     Assign,
     BoolVal,
     Compare,
+    ContextStmt,
     Expr,
     ForStmt,
     FuncDef,
@@ -166,6 +167,14 @@ class _ReduceFusionInstance(DefaultTransformVisitor):
         cond = self._visit_expr(stmt.cond, None)
         body, _ = self._visit_block(stmt.body, ctx)
         return WhileStmt(cond, body, stmt.loc), ctx
+
+    def _visit_context(self, stmt: ContextStmt, ctx: Any):
+        # The context expression is evaluated exactly, whatever context is
+        # active around the `with`; a loop hoisted out of it would round its
+        # element under that ambient context instead.
+        context = self._visit_expr(stmt.ctx, None)
+        body, _ = self._visit_block(stmt.body, ctx)
+        return ContextStmt(stmt.target, context, body, stmt.loc), ctx
 
     def _visit_compare(self, e: Compare, ctx: Any) -> Compare:
         # A chain `a < b < c` stops at the first link that fails: only its
